@@ -5,7 +5,7 @@ package dbdrv
 
 func init() {
 	extraProfiles = func(add func(Profile)) {
-		add(Profile{Name: "C15", W: map[string]int{"write": 45, "ingest": 10, "excise": 4, "ingestexcise": 3, "maint": 22, "viewiter": 8, "viewop": 6, "close": 6, "snap": 3},
+		add(Profile{Name: "C15", W: map[string]int{"write": 45, "ingest": 10, "ingestpair": 8, "excise": 4, "ingestexcise": 3, "maint": 22, "viewiter": 8, "viewop": 6, "close": 6, "snap": 3},
 			RangeKeys: 1, MaxSnaps: 2, MaxIters: 3, IterCls: "view", ReadIters: true})
 		add(Profile{Name: "C38", W: map[string]int{"write": 50, "ingest": 6, "maint": 12, "checkpoint": 18},
 			RangeKeys: 1})
